@@ -219,7 +219,7 @@ GRID_TILE_SIZE = {'GLOBAL_WEBMERCATOR': (256, 256), 'GLOBAL_GEODETIC': (256, 256
 ALL_TILE_SIZES = {(256, 256), (128, 128)}
 HANDLERS = ('service', 'ows', 'wms', 'wmts', 'tms', 'tiles', 'kml', 'demo')
 
-UPSTREAM_MODES = ['ok', 'ok', 'ok', 'ok', 'ok', 'ok', 'http500', 'http404', 'http401', 'noconn', 'text', 'xmlexc', 'html', 'garbage',
+UPSTREAM_MODES = ['ok'] * 12 + ['http500', 'http404', 'http401', 'noconn', 'text', 'xmlexc', 'html', 'garbage',
                   'truncated', 'empty', 'wrongsize', 'noct', 'http204']
 
 PIL_MIME = {'PNG': 'image/png', 'JPEG': 'image/jpeg', 'GIF': 'image/gif', 'TIFF': 'image/tiff'}
@@ -896,13 +896,13 @@ def wms_base(draw):
 @st.composite
 def tile_addr(draw, layer):
     grid = TILE_LAYERS.get(layer, ('GLOBAL_WEBMERCATOR',))[0]
-    z = draw(st.sampled_from(['0', '1', '2', '3', '5', '05', '19', '20', '99', '-1']))
+    z = draw(st.sampled_from(['0', '1', '2', '3', '5'] * 3 + ['05', '19', '20', '99', '-1']))
     try:
         n = 2 ** min(max(int(z), 0), 10)
     except ValueError:
         n = 1
-    coord = st.one_of(st.integers(0, max(0, n - 1)).map(str), st.integers(0, max(0, n - 1)).map(str),
-                      st.sampled_from(['-1', str(n), str(n * 2), '999999999999', '007', '-0']))
+    coord = st.one_of(*([st.integers(0, max(0, n - 1)).map(str)] * 5 +
+                        [st.sampled_from(['-1', str(n), str(n * 2), '999999999999', '007', '-0'])]))
     return grid, z, draw(coord), draw(coord)
 
 
@@ -944,9 +944,9 @@ def path_base(draw):
     kind = draw(st.sampled_from(['tms-tile', 'tms-tile', 'tiles-tile', 'tms-caps', 'tms-caps', 'kml-tile', 'kml-init', 'kml-kml',
                                  'wmts-rest', 'wmts-rest', 'wmts-rest-fi', 'wmts-rest-caps', 'demo', 'demo', 'demo', 'demo-static',
                                  'root', 'unknown']))
-    layer = draw(st.sampled_from(list(TILE_LAYERS) + list(TILE_LAYERS) + ['direct', 'nolayer', 'cached_EPSG900913']))
+    layer = draw(st.sampled_from(list(TILE_LAYERS) * 4 + ['direct', 'nolayer', 'cached_EPSG900913']))
     grid, z, x, y = draw(tile_addr(layer))
-    ext = draw(st.sampled_from([TILE_LAYERS.get(layer, ('', '', 'png'))[2]] * 3 + ['png', 'jpeg', 'jpg', 'gif', 'kml', 'PNG', 'xml']))
+    ext = draw(st.sampled_from([TILE_LAYERS.get(layer, ('', '', 'png'))[2]] * 9 + ['png', 'jpeg', 'jpg', 'gif', 'kml', 'PNG', 'xml']))
     p = []
     if kind in ('tms-tile', 'tiles-tile'):
         segs = ['tms' if kind == 'tms-tile' else 'tiles']
@@ -977,9 +977,9 @@ def path_base(draw):
                                      ['wmts', 'x', '1.0.0', 'WMTSCapabilities.xml'], ['wmts', '1.0.0', 'wmtscapabilities.xml']]))
     elif kind == 'demo':
         segs = draw(st.sampled_from([['demo', ''], ['demo', ''], ['demo'], ['demo', 'x']]))
-        which = draw(st.sampled_from(['index', 'wms', 'tms', 'wmts', 'wms_capabilities', 'wmsc_capabilities',
+        which = draw(st.sampled_from(['index', 'wms', 'wms', 'wms', 'tms', 'tms', 'wmts', 'wmts', 'wms_capabilities', 'wmsc_capabilities',
                                       'wmts_capabilities_kvp', 'wmts_capabilities', 'tms_capabilities']))
-        srs = draw(st.sampled_from(['EPSG:4326', 'EPSG:3857', 'EPSG:900913', 'EPSG:25832', 'EPSG:4258', 'x']))
+        srs = draw(st.sampled_from(['EPSG:4326', 'EPSG:3857', 'EPSG:4326', 'EPSG:3857', 'EPSG:900913', 'EPSG:25832', 'EPSG:4258', 'x']))
         fmt = draw(st.sampled_from(['image/png', 'image/jpeg', 'png', 'jpeg']))
         if which == 'wms':
             p += _kv(('wms_layer', draw(st.sampled_from(WMS_LAYERS))), ('format', fmt), ('srs', srs))
@@ -1159,6 +1159,13 @@ def cases(draw):
             tags.append('mut:%s@extra-param' % k)
             params.append([draw(st.sampled_from(['foo', 'map', 'SLD', 'SLD_BODY', 'layers', 'format', 'srs', 'wms_layer', 'type',
                                                  'origin', 'exceptions', 'info_format'])), v])
+    if params and draw(st.integers(0, 4)) == 0:
+        # marker sweep: exactly one parameter value replaced by (or extended with) an injection marker
+        i = draw(st.integers(0, len(params) - 1))
+        mk = draw(st.sampled_from(markup.MARKERS))
+        params[i][1] = (params[i][1] + mk) if draw(st.integers(0, 3)) == 0 else mk
+        tags.append('mut:marker-sweep@param')
+        nmut += 1
     if nmut == 0:
         tags.append('mut:none')
     params = cap_sizes(params)
@@ -1181,7 +1188,7 @@ def cases(draw):
         path = enc_value(sn[0], 'loose') + path      # front-end delivered the full path, prefix to be stripped
         tags.append('script-name-prefix-in-path')
     method = draw(st.sampled_from(['GET'] * 8 + ['POST', 'HEAD', 'OPTIONS', 'get']))
-    n_up = draw(st.sampled_from([1, 1, 2, 3]))
+    n_up = draw(st.sampled_from([1, 1, 1, 2, 3]))
     upstream = [draw(st.sampled_from(UPSTREAM_MODES)) for _ in range(n_up)]
     fw = draw(st.integers(0, 4)) > 0
     return {'method': method, 'path': path, 'query': query, 'headers': headers, 'upstream': upstream, 'fw': fw,
